@@ -83,7 +83,7 @@ def run(tier):
     check = core.Check("C15", tier)
     wp = core.WorkerPool(core.build_worker())
     schema = walk.check_schema(wp)
-    budget, maxlen = (1, 2) if tier == "quick" else (3, 2)
+    budget, maxlen = (1, 3) if tier == "quick" else (3, 3)
     inst = walk.instances("print", budget, maxlen, check, timeout=3000)
     lextable = check.lextable
     res = wp.run([{"op": "synth", "kind": o["kind"], "slots": o["slots"], "run": "print"} for o in inst])
